@@ -59,6 +59,10 @@ FmtOnDisk_C07(r) == r.hasdisk => /\ r.disk.exit >= 0
                                  /\ r.disk.exit # 0 => r.disk.h = r.origh
 
 Idem_C11(r) == (r.outcome = "ok" /\ r.p1.ok /\ r.p2.ok) => r.fmt2 = r.fmt
+\* `spok --fmt` run twice on the same file: the second run changes nothing (and a run that refuses changes nothing either)
+FmtOnDisk_C11(r) == r.hasdisk => /\ r.disk.exit >= 0 /\ r.disk2.exit >= 0
+                                 /\ r.disk.exit = 0 => (r.disk2.exit = 0 /\ r.disk2.h = r.disk.h)
+                                 /\ r.disk.exit # 0 => r.disk.h = r.origh
 
 Item(n) == CASE n.k = "comment" -> <<"c", n.t>>
              [] n.k = "task"    -> <<"t", n.a, n.t>>
@@ -66,6 +70,8 @@ Item(n) == CASE n.k = "comment" -> <<"c", n.t>>
 Items(tree) == LET keep == SelectSeq(tree, LAMBDA n : ~(n.k = "comment" /\ n.t = "")) IN
                [i \in DOMAIN keep |-> Item(keep[i])]
 Kept_C15(r) == (r.outcome = "ok" /\ r.p1.ok /\ r.p2.ok) => Items(r.p1.tree) = Items(r.p2.tree)
+\* the same for the file `spok --fmt` leaves on disk (dtree: what the parser reads from it; <<>> if it does not parse)
+KeptOnDisk_C15(r) == (r.hasdtree /\ r.outcome = "ok" /\ r.p1.ok) => Items(r.p1.tree) = Items(r.dtree)
 
 \* ---------------- model drift (never a verdict): predicted token stream / outcome vs the real one ----------------
 TokKey(t) == <<t.ty, t.pos, t.len, t.line>>
@@ -82,6 +88,7 @@ Bad(P(_)) == SetToSeq({i \in DOMAIN Recs : ~P(Recs[i])})
 ASSUME JsonSerialize("verdict.json",
   [Tiles_C16 |-> Bad(Tiles_C16), Total_C08 |-> Bad(Total_C08), AstEq_C06 |-> Bad(AstEq_C06),
    SemEq_C07 |-> Bad(SemEq_C07), FmtOnDisk_C07 |-> Bad(FmtOnDisk_C07), Idem_C11 |-> Bad(Idem_C11), Kept_C15 |-> Bad(Kept_C15),
+   FmtOnDisk_C11 |-> Bad(FmtOnDisk_C11), KeptOnDisk_C15 |-> Bad(KeptOnDisk_C15),
    Drift_Toks |-> Bad(Drift_Toks), Drift_Parse |-> Bad(Drift_Parse), Drift_Fmt |-> Bad(Drift_Fmt),
    n |-> Len(Recs),
    nParsed |-> Cardinality({i \in DOMAIN Recs : Recs[i].p1.ok}),
